@@ -38,6 +38,8 @@ pub const F_TINYGAS: u64 = 8;
 pub const F_TINYSIZE: u64 = 16;
 pub const F_RELAYER: u64 = 32;
 pub const F_BADRECIPIENT: u64 = 64;
+/// block gas limit = max_gas of the first generated transaction (boundary of the pre-check)
+pub const F_EXACTGAS: u64 = 128;
 
 #[derive(Clone)]
 pub struct KnownCoin {
@@ -345,6 +347,17 @@ impl World {
         }
     }
 
+    /// Sets block_gas_limit to exactly the max_gas of `tx` (flag F_EXACTGAS).
+    pub fn exact_gas_limit(&mut self, tx: &Transaction) {
+        use fuel_core_types::blockchain::transaction::TransactionExt;
+        if let Ok(g) = tx.max_gas(&self.params) {
+            self.params.set_block_gas_limit(g);
+            let mut t = self.db.write_transaction();
+            t.storage_as_mut::<ConsensusParametersVersions>().insert(&0, &self.params).unwrap();
+            t.commit().unwrap();
+        }
+    }
+
     /// Insert a coin whose utxo id collides with output `idx` of `tx` (class E1).
     pub fn plant_collision(&mut self, rng: &mut Rng, tx: &Transaction, idx: u16) {
         let id = tx.id(&self.params.chain_id());
@@ -396,6 +409,26 @@ impl World {
             if let Some(tx) = self.gen_huge_tx(rng) {
                 return tx;
             }
+        }
+        // a reverting script whose only input is a retryable message: it can be executed again
+        // and again as far as the inputs are concerned - only ProcessedTransactions stops it
+        let retry_only = (0..self.msgs.len()).find(|i| !self.msgs[*i].used && !self.msgs[*i].msg.data().is_empty());
+        if let (Some(mi), true) = (retry_only, rng.chance(1, 8)) {
+            let km = self.msgs[mi].clone();
+            let mut b = TransactionBuilder::script(vec![op::rvrt(RegId::ONE)].into_iter().collect(), vec![]);
+            b.with_params(self.params.clone());
+            b.script_gas_limit(10_000);
+            b.max_fee_limit(0);
+            b.add_unsigned_message_input(
+                self.wallets[km.wallet].0,
+                *km.msg.sender(),
+                *km.msg.nonce(),
+                km.msg.amount(),
+                km.msg.data().clone(),
+            );
+            let tx: Transaction = b.finalize().into();
+            self.txs.push(tx.clone());
+            return tx;
         }
         let kind = match rng.below(12) {
             0 => 0,          // empty script
